@@ -52,11 +52,10 @@ Definition w_keys : list (cid * kmap) :=
    ((22, 3), [(7, (KValid, (8, 1), 30)); (8, (KValid, (5, 1), 40)); (9, (KRevoked, (4, 1), 52))])].
 
 Example C11_witness_key_hypotheses :
-  WellFormed N.compare w_keys /\ KeyConsistent w_keys /\ KeyNoTie w_keys /\ KeyWindow w_trim w_keys.
+  WellFormed N.compare w_keys /\ KeyConsistent w_keys /\ KeyWindow w_trim w_keys.
 Proof.
-  split; [|split; [|split]].
+  split; [|split].
   - intros c m H. unfold w_keys in H. inv_in; repeat constructor.
-  - intros c1 m1 c2 m2 k v1 v2 I1 I2 J1 J2. unfold w_keys in *. inv_in; cbn; intros; congruence.
   - intros c1 m1 c2 m2 k v1 v2 I1 I2 J1 J2. unfold w_keys in *. inv_in; cbn; intros; congruence.
   - intros c1 m1 c2 m2 k v1 v2 I1 I2 J1 J2. unfold w_keys in *. inv_in; vm_compute; intros; congruence.
 Qed.
@@ -66,26 +65,27 @@ Example C11_witness_key_result :
   eval (key_merge w_trim) w_keys (Nd (L 2) (Nd (L 1) (L 0))) = r.
 Proof. vm_compute. split; reflexivity. Qed.
 
-(* THE REFUTING WITNESS of C11_key_full_statement, evaluated: the same three replicas, two
-   groupings, two different status cids for the revoked key (same on the real code) ... *)
-Example C11_witness_key_refuted :
+(* status cid ties: two replicas revoked key 7 independently (12.1 and 15.2), a third has a
+   newer change of the attribute; the hypotheses of the key theorems hold and every grouping
+   keeps the EARLIEST revocation ... *)
+Example C11_witness_key_ties :
   WellFormed N.compare key_witness_ins /\ KeyConsistent key_witness_ins /\
   KeyWindow key_witness_trim key_witness_ins /\
   eval (key_merge key_witness_trim) key_witness_ins (Nd (Nd (L 2) (L 0)) (L 1))
     = Some ((22, 3), [(7, (KRevoked, (12, 1), 32))]) /\
   eval (key_merge key_witness_trim) key_witness_ins (Nd (L 2) (Nd (L 0) (L 1)))
-    = Some ((22, 3), [(7, (KRevoked, (15, 2), 32))]) /\
-  known (CKey key_witness_trim key_witness_ins []) = true.
+    = Some ((22, 3), [(7, (KRevoked, (12, 1), 32))]).
 Proof.
   split; [exact key_witness_wf|]. split; [exact key_witness_consistent|]. split; [exact key_witness_window|].
-  vm_compute. repeat split; reflexivity.
+  vm_compute. split; reflexivity.
 Qed.
-(* ... and with the proposed fix both groupings keep the earliest revocation *)
-Example C11_witness_key_fixed :
-  eval (key_merge_fixed key_witness_trim) key_witness_ins (Nd (Nd (L 2) (L 0)) (L 1))
+(* ... whereas the PRE-FIX merge (before /repo ea75008) gave two different status cids for the
+   two groupings: the refuting witness of C11_key_prefix_full_statement, evaluated *)
+Example C11_witness_key_prefix :
+  eval (key_merge_prefix key_witness_trim) key_witness_ins (Nd (Nd (L 2) (L 0)) (L 1))
     = Some ((22, 3), [(7, (KRevoked, (12, 1), 32))]) /\
-  eval (key_merge_fixed key_witness_trim) key_witness_ins (Nd (L 2) (Nd (L 0) (L 1)))
-    = Some ((22, 3), [(7, (KRevoked, (12, 1), 32))]).
+  eval (key_merge_prefix key_witness_trim) key_witness_ins (Nd (L 2) (Nd (L 0) (L 1)))
+    = Some ((22, 3), [(7, (KRevoked, (15, 2), 32))]).
 Proof. vm_compute. split; reflexivity. Qed.
 
 (* audit log: overlapping logs of three replicas *)
